@@ -68,7 +68,7 @@ func generate() []session {
 		"record":  {"OPTIONS", "ANNOUNCE", "SETUP", "RECORD"},
 		"options": {"OPTIONS"},
 	}
-	protos := []string{"tcp", "udp", "auto"}
+	protos := []string{"tcp", "udp", "auto", "tcp", "udp", "auto", "mcast"}
 	add := func(prog string, muts []mutation) {
 		se := session{ID: len(out), Program: prog, Proto: protos[r.Intn(len(protos))], TLS: r.Intn(5) == 0, Creds: r.Intn(3) == 0,
 			BackCh: prog == "play" && r.Intn(6) == 0, AnyPort: r.Intn(6) == 0, Muts: muts, Seed: r.Int63()}
@@ -105,6 +105,33 @@ func generate() []session {
 			}
 		}
 	}
+	// 2b. multicast: the client's listeners are created from the server's answer, so every way a
+	// complete multicast answer can still be refused afterwards is tried with a multicast client
+	for _, arg := range []string{
+		"Transport=RTP/SAVP;multicast;destination=224.1.0.1;port=15000-15001;ttl=127",
+		"Transport=RTP/AVP;multicast;destination=224.1.0.1;port=15000-15001;ttl=127",
+		"Transport=RTP/AVP;multicast;destination=224.1.0.1;port=15000-15001;ttl=127;ssrc=zz",
+		"Transport=RTP/AVP;multicast;destination=224.1.0.1;port=15000-15001;ttl=127;mode=record",
+		"Transport=RTP/AVP;multicast;destination=224.1.0.1",
+		"Transport=RTP/AVP;multicast;destination=127.0.0.1;port=15000-15001",
+		"Transport=RTP/AVP;multicast;destination=224.1.0.1;port=0-0",
+	} {
+		for _, nth := range []int{0, 1} {
+			for _, tlsOn := range []bool{false, true} {
+				add("play", []mutation{{Method: "SETUP", Nth: nth, Kind: "header", Arg: arg}})
+				out[len(out)-1].Proto = "mcast"
+				out[len(out)-1].TLS = tlsOn
+			}
+		}
+	}
+	add("play", nil)
+	out[len(out)-1].Proto = "mcast"
+	for _, k := range []string{"status", "close", "silence", "del-header"} {
+		arg := map[string]string{"status": "461", "del-header": "Transport"}[k]
+		add("play", []mutation{{Method: "SETUP", Nth: 1, Kind: k, Arg: arg}})
+		out[len(out)-1].Proto = "mcast"
+	}
+
 	// 3. sampled pairs of mutations
 	n := run.Pick(150, 8000)
 	for i := 0; i < n; i++ {
